@@ -54,6 +54,9 @@ CHECKS = {
  "C20": ("exploration", "expected-outcome table over all ordered configuration pairs + tampered/foreign directories, real start() per case",
          "All 196 ordered (creating, reopening) pairs over 7 network strings x trace flag on fresh and populated directories, 40 tamper cases edited directly in the config RocksDB and 7 foreign/fresh directory shapes; start() must succeed iff all four recorded values match; on success Obs over HTTP equals the one before the stop.",
          "Protocol/db version mismatches are simulated by editing the recorded versions."),
+ "C09": ("exploration", "structure-aware fuzzing of the real method table with a process-wide panic hook, liveness probes (read + write round) and logical hang witnesses",
+         "Every registered method is driven in-process with typed mutations of well-formed templates, random/mutated bytecode, ABI-valid boundary and ABI-invalid precompile inputs (direct, via contract, via overrides, via executed transactions) in five engine states; any panic while serving, any lost liveness (height must rise by exactly one in a write round) and any mine overrun is a violation; watchdog expiry is inconclusive.",
+         "Sampled inputs; HTTP framing layer is covered by C12/C20 only; brc20_mine only with small counts."),
 }
 NOT_YET = "check not built yet in this session (planned, see DESIGN.md)"
 ALL = ["C%02d" % i for i in range(1, 21)]
